@@ -208,7 +208,7 @@ func (ex *Exec) newArray(st *State, elems []Value) *PtrC {
 // arrLen returns the (maximal) length of the array a slice base points to.
 func (ex *Exec) arrLen(st *State, base Value) int {
 	m := 0
-	for _, a := range alts(base) {
+	for _, a := range liveAlts(st, base) {
 		pc := a.V.(*PtrC)
 		if pc.Obj == 0 {
 			continue
